@@ -6,10 +6,11 @@ Shapes_thorough == {<<1>>, <<2>>, <<3>>, <<5>>, <<2, 2>>, <<3, 2>>, <<1, 3>>, <<
 (* <<value pattern, validity pattern>>: 1 distinct / 2 repeated values; masks 1 all valid, 2 none, 3 first cell invalid, *)
 (* 4 last cell invalid, 5 one invalid cell inside, 6 one valid cell inside                                              *)
 CfgPats_quick    == {<<1, 1>>, <<2, 2>>, <<1, 3>>, <<2, 4>>, <<1, 5>>, <<2, 6>>}
-CfgPats_thorough == {1, 2} \X (1 .. 6)
+CfgPats_thorough == ({1} \X (1 .. 6)) \cup {<<2, 2>>, <<2, 5>>, <<2, 6>>}
 (* widths: 0, small, larger than every axis *)
 WPairs_quick    == {<<0, 0>>, <<1, 0>>, <<0, 2>>, <<2, 1>>, <<5, 1>>, <<2, 6>>}
-WPairs_thorough == {0, 1, 2, 3, 6} \X {0, 1, 2, 3, 6}
+WPairs_thorough == {<<0, 0>>, <<1, 0>>, <<0, 1>>, <<2, 0>>, <<0, 2>>, <<1, 2>>, <<2, 1>>, <<3, 3>>, <<6, 0>>, <<0, 6>>, <<6, 2>>,
+                    <<3, 6>>}
 Opts_all == {Opt("constant", "default", 0, 0), Opt("constant", "scalar", 1, 1), Opt("constant", "scalar", 7, 7),
              Opt("constant", "pair", 2, 0), Opt("constant", "pair", 0, 5),
              Opt("maximum", "default", 0, 0), Opt("maximum", "stat", 1, 0), Opt("maximum", "stat", 2, 0),
@@ -18,8 +19,8 @@ Opts_all == {Opt("constant", "default", 0, 0), Opt("constant", "scalar", 1, 1), 
              Opt("median", "default", 0, 0), Opt("median", "stat", 1, 0), Opt("median", "stat", 2, 0),
              Opt("edge", "default", 0, 0), Opt("wrap", "default", 0, 0),
              Opt("reflect", "default", 0, 0), Opt("symmetric", "default", 0, 0),
-             Opt("linear_ramp", "default", 0, 0), Opt("linear_ramp", "scalar", 3, 3), Opt("linear_ramp", "pair", 4, 1)}
+             Opt("linear_ramp", "default", 0, 0), Opt("linear_ramp", "scalar", 3, 3), Opt("linear_ramp", "pair", 0, 3)}
 Opts_thorough == Opts_all \cup {Opt("maximum", "stat", 3, 0), Opt("minimum", "stat", 3, 0), Opt("median", "stat", 3, 0),
-                                Opt("mean", "stat", 3, 0), Opt("linear_ramp", "pair", 0, 2), Opt("reflect", "even", 0, 0),
+                                Opt("mean", "stat", 3, 0), Opt("linear_ramp", "pair", 4, 1), Opt("reflect", "even", 0, 0),
                                 Opt("symmetric", "even", 0, 0)}
 =============================================================================
